@@ -1,5 +1,6 @@
 import AdfObdd.CountExact
 import AdfObdd.AdfPipeline
+import AdfObdd.CountWitness
 /-! # C04 — the counting-guided stable search returns exactly the stable models
 
 `GK.search` (`CountSearchK.lean`) is the recursion of `two_val_model_counts_logic` (as repaired by D1):
@@ -145,7 +146,50 @@ example : [some true] ∈ (countAll Store.init 1 [1] true).2.map (fun v => v.map
     simp only [Gam, redu, List.map_cons, List.map_nil, List.getElem?_cons_zero, Option.some.injEq]
     exact constOf_some.mpr (fun _ => rfl)
 
-example : (cubesF Store.init 1 0 true 0 [] []).Pairwise DisjPC := by simp [cubesF]
+/-- `cube_laws` on a non-terminal handle with a NON-EMPTY cube list: in the store holding x0 ∧ x1
+(handle 3, built by two `mkNode` calls, well formed) the counter-model cubes are `x0 ∧ ¬x1` and
+`¬x0`, and they are pairwise disjoint and cover the counter-models -/
+example : WF CW.andStore ∧ cubesF CW.andStore 4 3 false 5 [] [] = [([1], [0]), ([0], [])] ∧
+    ([([1], [0]), ([0], [])] : List PCube).Pairwise DisjPC ∧
+    (∀ σ, σ 5 = false → eval CW.andStore 3 σ = false →
+      ∃ c ∈ ([([1], [0]), ([0], [])] : List PCube), InPC c σ) := by
+  have hc : cubesF CW.andStore 4 3 false 5 [] [] = [([1], [0]), ([0], [])] := by
+    simp [cubesF, CW.andStore_nodes]
+  have h := cube_laws CW.andStore CW.andStore_WF 3 false 5 (by simp [CW.andStore_nodes]) (by decide)
+  rw [hc] at h
+  exact ⟨CW.andStore_WF, hc, h.1, h.2⟩
+
+/-- **`count_search_exact` instantiated on a framework where the search branches**: the
+three-statement framework `s(a).s(b).s(c).ac(a,c).ac(b,and(b,a)).ac(c,c).` of the pre-study,
+compiled by the `from_parser` model. Its grounded interpretation decides nothing
+(`CW.grounded_uuu`: the all-undecided vector is the least fixpoint), so the search starts with
+three undecided statements and has to pick, enumerate cubes and flip. The theorem applies (all
+hypotheses discharged), its specification side is computed at the level of Boolean functions:
+`FFF` is a stable model and therefore IS in the answer; `TTT` is a two-valued model that is not
+stable (`CW.ttt_not_stable`) and therefore is NOT in the answer; no vector is reported twice —
+for both heuristics. -/
+theorem count_search_exact_branching_instance (useA : Bool) :
+    let b := buildNative 3 CW.fms
+    let out := (countAll b.1 3 b.2 useA).2.map (fun v => v.map storeIsConst)
+    WF b.1 ∧ b.2.length = 3 ∧ (∀ t ∈ b.2, t < b.1.nodes.size) ∧
+    b.2.map (eval b.1) = CW.D ∧ IsLfp CW.D [none, none, none] ∧
+    out.Nodup ∧ [some false, some false, some false] ∈ out ∧ [some true, some true, some true] ∉ out := by
+  intro b out
+  have ⟨w, hl, h⟩ := buildNative_correct 3 CW.fms CW.fms_ok.1 CW.fms_ok.2
+  have hl3 : b.2.length = 3 := hl
+  have hvalid : ∀ t ∈ b.2, t < b.1.nodes.size := by
+    intro t ht
+    obtain ⟨i, hi, rfl⟩ := List.getElem_of_mem ht
+    have hi' : i < CW.fms.length := by have : CW.fms.length = 3 := rfl; omega
+    exact (h i _ _ (List.getElem?_eq_getElem hi) (List.getElem?_eq_getElem hi')).1
+  have e : b.2.map (eval b.1) = CW.D :=
+    map_eval_eq_sem b.1 b.2 CW.fms hl (fun i t f a c => (h i t f a c).2)
+  have main := count_search_exact b.1 3 b.2 useA w hl3 hvalid
+  simp only [e] at main
+  refine ⟨w, hl3, hvalid, e, CW.grounded_uuu, main.1, ?_, ?_⟩
+  · exact (main.2 _).mpr CW.fff_stable
+  · intro hin
+    exact CW.ttt_not_stable ((main.2 _).mp hin)
 
 example : ∃ (fms : List Fm), fms.length ≤ VBOT ∧ ∀ f ∈ fms, f.atomsOK :=
   ⟨[.atom 0], by simp [VBOT], by simp [Fm.atomsOK, VBOT]⟩
@@ -167,3 +211,7 @@ def d1Witness : Store × List Nat := buildNative 4 [.xor (.atom 1) (.atom 3), .a
 #guard (countAllUnrepaired d1Witness.1 4 d1Witness.2 false).2 == []
 
 end C04
+
+#print axioms C04.count_search_exact
+#print axioms C04.count_search_exact_branching_instance
+
